@@ -74,6 +74,7 @@ QueriesOK(tag, c, o, r, fl) ==
                NoP(o, "mids") /\ Len(o.mids.v) = N(c) - 1 /\ \A k \in 1..(N(c) - 1) : MidOK(c, k, o.mids.v[k]))
     /\ Clause(i, "C17.interpolate.nan_outside",
                NoP(o, "below") /\ NoP(o, "above") /\ o.below.v[2] = 1 /\ o.above.v[2] = 1)
+    /\ Clause(i, "C17.interpolate.fs_agrees_with_f", NoP(o, "fs") /\ o.fs.agree)
     /\ Clause(i, "C17.x_min_max", /\ o.xmin[2] = 0 /\ AbsV(o.xmin[1] - QXU * XMin(c)) <= TX
                                   /\ o.xmax[2] = 0 /\ AbsV(o.xmax[1] - QXU * XMax(c)) <= TX)
     /\ Clause(i, "C17.probes.no_panic", pshape)
